@@ -58,6 +58,10 @@ FaceDet(t) == Det3(XYW(t.v[1]), XYW(t.v[2]), XYW(t.v[3]))
 Culled(cull, t) == (cull = 1 /\ FaceDet(t) > 0) \/ (cull = 2 /\ FaceDet(t) <= 0)
 CullOf(e) == IF "cull" \in DOMAIN e THEN e.cull ELSE 0
 Drawn(e) == {k \in 1..Len(e.tris) : ~Culled(CullOf(e), e.tris[k])}
+\* Ambiguity stays geometric: centres near an edge (or an internal fan edge) of a CULLED
+\* triangle are excluded as well.  A clipped piece of (all but) zero area has no facing -
+\* is_backface is false for it - so culling Back keeps it, and it may draw the pixels its
+\* collapsed edges pass through (seen on scene i1-29276 of the thorough tier).
 
 \* floor(a * 32^k / d) for a >= 0, d > 0, multiplying only remainders (32-bit safe)
 RECURSIVE FracDigits(_, _, _)
@@ -103,7 +107,7 @@ PixelOK(e, px, py) ==
       r == RayOf(e.vp, px, py)
       ds == [k \in 1..Len(e.tris) |-> DOf(e.tris[k], r)]
       vis == {k \in Drawn(e) : Visible(e.tris[k], ds[k])}
-      amb == \/ \E k \in Drawn(e) : AmbigTri(e.vp, e.tris[k], px, py)
+      amb == \/ \E k \in 1..Len(e.tris) : AmbigTri(e.vp, e.tris[k], px, py)
              \/ \E j \in 1..Len(e.fan) : NearSeg(e.fan[j], px, py)
   IN amb \/
      IF vis = {} THEN obs[1] = 0
@@ -139,7 +143,7 @@ VpPixels(e) ==
 \* statistics: pixels judged as covered / as kept (not ambiguous)
 PixelClass(e, px, py) ==
   LET r == RayOf(e.vp, px, py)
-      amb == \/ \E k \in Drawn(e) : AmbigTri(e.vp, e.tris[k], px, py)
+      amb == \/ \E k \in 1..Len(e.tris) : AmbigTri(e.vp, e.tris[k], px, py)
              \/ \E j \in 1..Len(e.fan) : NearSeg(e.fan[j], px, py)
   IN IF amb THEN 0 ELSE IF \E k \in Drawn(e) : Visible(e.tris[k], DOf(e.tris[k], r)) THEN 1 ELSE 2
 Judged(e, c) == Cardinality({p \in VpPixels(e) : PixelClass(e, p[1], p[2]) = c})
